@@ -113,6 +113,7 @@ func (ex *Exec) execBlock(fr *Frame, b *ssa.BasicBlock, pc Term, st State) (Stat
 				fr.vals[in] = res
 			}
 			ex.assumeAfter(fr, in, pc, st)
+			st = ex.ghostAfter(fr, in, pc, st)
 		case *ssa.Go:
 			ex.vc.note("goroutine spawn skipped: " + posOf(fr.fn, in.Pos()))
 			ex.siteCall(fr, in, in.Common(), pc, st)
